@@ -190,6 +190,11 @@ func (r FileReplacer) Replace(d data.Data, cl Changelog) (*ast.File, error) {
 		// (SelectorExpr) where only an identifier is allowed (in a variable
 		// declaration name, for example).
 		if give.Type().AssignableTo(v.Type()) {
+			if _, ok := m.parent.(*ast.StarExpr); ok {
+				if x, ok := give.Interface().(ast.Expr); ok {
+					give = reflect.ValueOf(starOperand(x))
+				}
+			}
 			v.Set(give)
 		}
 	}
